@@ -131,7 +131,8 @@ class C15(object):
                          'another_solvers_exclusion_list_extended_in_place.cases',
                          'coarse_per_period_tolerance.cases',
                          'second_search_after_a_rejected_one.cases',
-                         'solver_reused_after_search_of_a_block_with_these_names_exogenous.cases')
+                         'solver_reused_after_search_of_a_block_with_these_names_exogenous.cases',
+                         'two_cycle_inside_the_tolerance.cases')
 
     def n_cases(self, tier):
         return 300 if tier == 'quick' else 20000
@@ -162,6 +163,18 @@ class C15(object):
     def make_case(self, rng, idx, tier):
         if idx % 12 == 5:
             return self.window_case(rng)
+        if idx % 12 == 7:
+            # an undamped two-cycle whose two points both lie inside +/- tolerance (tolerance well above the absolute band
+            # 1e-4 the search treats as zero): it moves by more than the tolerance every period, absolutely and relatively
+            tol = 10 ** rng.uniform(-2.7, -2)
+            amp = rng.choice([0.6, 0.8, 0.95]) * tol
+            c = rng.choice([0.0, 0.2, -0.1]) * tol
+            d = {'rows': [['x0', {'LAG_x0': -1.0}, c]], 'names': ['x0'], 'ics': {'x0': amp}, 'exo': None, 'deco': False,
+                 'kinds': ['two_cycle_inside_the_tolerance'], 'loop': None, 'near_cancel': None}
+            return {'kind': 'search', 'dyn': d, 'text': render(d), 'T': rng.choice([3, 4, 10, 31]), 'loop_default_tolerance': False,
+                    'coarse_step_tolerance': False, 'tol': tol, 'reduction': rng.random() < 0.5, 'via_solve': False,
+                    # a scalar mode of modulus 1: the next move equals the last one, so no slack is needed for this state
+                    'sharp_states': ['x0']}
         d = gen_dynamics(rng)
         via_solve = rng.random() < 0.3
         if via_solve and d['exo'] is not None:
@@ -236,6 +249,8 @@ class C15(object):
             rec.count('near_cancelling_derived.cases')
         if case.get('window'):
             rec.count('acceptance_window.cases')
+        if case.get('sharp_states'):
+            rec.count('two_cycle_inside_the_tolerance.cases')
         exo_names = [n for n, _ in s.Parser.Exogenous]
 
         def snap():
@@ -331,6 +346,8 @@ class C15(object):
                 if abs(a) < 1e-4 and abs(b) < SLACK * 1e-4:
                     continue     # near zero on the absolute scale the search itself uses (band 1e-4, same slack)
                 lim = SLACK * case['tol'] * max(1.0, abs(a))
+                if n in case.get('sharp_states', ()):
+                    lim = (1.0 + 1e-9) * case['tol'] * max(1.0, abs(a))
                 ratio = abs(b - a) / lim
                 worst = max(worst, ratio)
                 if not abs(b - a) <= lim:
